@@ -7,13 +7,14 @@ from engine.tlc import MachineryError
 from bind.sandbox import PROP_KEYS
 
 CFGS = {("C04", "quick"): ["MC_Sandbox_modes_q.cfg"], ("C05", "quick"): ["MC_Sandbox_modes_q.cfg", "MC_Sandbox_tracer_q.cfg"],
-        ("C15", "quick"): ["MC_Sandbox_ledger_q.cfg"],
+        ("C15", "quick"): ["MC_Sandbox_ledger_q.cfg", "MC_Sandbox_inputs_q.cfg"],
         ("C04", "thorough"): ["MC_Sandbox_modes_q.cfg", "MC_Sandbox_modes_t.cfg"],
         ("C05", "thorough"): ["MC_Sandbox_modes_q.cfg", "MC_Sandbox_tracer_q.cfg", "MC_Sandbox_modes_t.cfg"],
-        ("C15", "thorough"): ["MC_Sandbox_ledger_q.cfg", "MC_Sandbox_ledger_t.cfg"]}
+        ("C15", "thorough"): ["MC_Sandbox_ledger_q.cfg", "MC_Sandbox_inputs_q.cfg", "MC_Sandbox_ledger_t.cfg"]}
 MUTANTS = {"C04": [("MUT_Sandbox_fragile_capture.cfg", "Contained")],
            "C05": [("MUT_Sandbox_no_base_handler.cfg", "Restored"), ("MUT_Sandbox_tracer_conditional_restore.cfg", "Restored")],
-           "C15": [("MUT_Sandbox_phantom_line.cfg", "OutputLedger"), ("MUT_Sandbox_lifo_inputs.cfg", "InputFifo")]}
+           "C15": [("MUT_Sandbox_phantom_line.cfg", "OutputLedger"), ("MUT_Sandbox_lifo_inputs.cfg", "InputFifo"),
+                   ("MUT_Sandbox_falsy_inputs_ignored.cfg", "InputFifo")]}
 
 
 def key_of(prop, m, mine):
